@@ -493,6 +493,7 @@ impl TCheck for C09T {
             hard_fault: sc.variant.is_hard(),
             one_cpu: false,
             post: Some(post),
+            max_scheds: None,
         }
     }
     fn rule(&self) -> String {
